@@ -57,6 +57,7 @@ CONSTANTS NChecks,      \* number of checks (1..4); names c1.. in default comple
           ExtraV,       \* subset of Combined: raw Reject && Quarantine results in the verdict alphabet
           Only1On,      \* TRUE: rcpt-stage verdicts may apply to recipient r1 only
           WithRemote,   \* TRUE: include the remote-target scenario
+          Froms,        \* subset of {"addr", "null"}: ordinary sender / the null reverse-path (same behaviour)
           Kinds,        \* subset of {"pipe", "rpipe"}: recording targets / the real remote target behind D1
           ModOn,        \* TRUE: destination blocks may carry a recipient modifier that fails for one recipient
           Lazy,         \* TRUE: verdicts, routes, body path are chosen when first consulted
@@ -103,17 +104,17 @@ Routes == {rt \in UNION {[1..n -> DBlocks] : n \in 1..MaxRcpts} : rt[1] = "D1"}
 \* The configuration is revealed step by step ("?" = not consulted yet); a behaviour depends
 \* only on the cells it consults, so this is the same set of behaviours as choosing everything
 \* up-front, with shared prefixes.
-BaseCfg(p, kd) ==
+BaseCfg(p, kd, fr) ==
   [place |-> [c \in Checks |-> p[Idx(c)]],
    verd  |-> [c \in Checks |-> [s \in Stages |-> "?"]],
    only1 |-> {}, route |-> <<>>, path |-> "?", dmarc |-> "?", kind |-> kd,
-   mod |-> IF ModOn /\ kd = "pipe" THEN "?" ELSE "off", mfail |-> {},
+   mod |-> IF ModOn /\ kd = "pipe" THEN "?" ELSE "off", mfail |-> {}, from |-> fr,
    nn |-> 0, cells |-> {}, fixed |-> FALSE]
 
 RemoteCfg ==
   [place |-> [c \in Checks |-> {}], verd |-> [c \in Checks |-> [s \in Stages |-> "none"]],
    only1 |-> {}, route |-> <<"D1">>, path |-> "atomic", dmarc |-> "off", kind |-> "remote",
-   mod |-> "off", mfail |-> {}, nn |-> 0, cells |-> {}, fixed |-> TRUE]
+   mod |-> "off", mfail |-> {}, from |-> "addr", nn |-> 0, cells |-> {}, fixed |-> TRUE]
 
 Idle == [st |-> "idle", op |-> "", r |-> "", items |-> <<>>, todo |-> <<>>, pend |-> {},
          rej |-> FALSE, anyrej |-> FALSE, gq |-> FALSE, tq |-> {}, tfail |-> FALSE, res |-> ""]
@@ -132,7 +133,7 @@ InitWith(c) ==
   /\ hist = <<>>
 
 Init ==
-  \/ \E p \in PlaceSeqs : \E kd \in Kinds : InitWith(BaseCfg(p, kd))
+  \/ \E p \in PlaceSeqs : \E kd \in Kinds : \E fr \in Froms : InitWith(BaseCfg(p, kd, fr))
   \/ WithRemote /\ InitWith(RemoteCfg)
 
 (* up-front choice of the verdict table (~Lazy): which cells are not "none", then their values *)
@@ -257,8 +258,11 @@ Cmd ==
      IN /\ obs' = ObsCmd(obs, cfg, op, r)
         /\ hist' = H([a |-> "cmd", op |-> op, r |-> r])
         /\ CASE op \in {"commit", "abort"} ->
-                /\ run' = IF OpenTargets = {} THEN [Idle EXCEPT !.st = "ret", !.op = op, !.res = "ok"]
-                          ELSE [Idle EXCEPT !.st = "tgt", !.op = op, !.tq = {[t |-> t, op |-> op] : t \in OpenTargets}]
+                \* Commit after the per-recipient body was refused for everybody by a check: the pipeline
+                \* aborts the target deliveries instead (nothing is committed after a refusal)
+                /\ LET top == IF op = "commit" /\ obs.dead THEN "abort" ELSE op IN
+                   run' = IF OpenTargets = {} THEN [Idle EXCEPT !.st = "ret", !.op = op, !.res = "ok"]
+                          ELSE [Idle EXCEPT !.st = "tgt", !.op = op, !.tq = {[t |-> t, op |-> top] : t \in OpenTargets}]
                 /\ UNCHANGED <<cfg, k, devs, used, metaQ>>
              [] op = "start" -> Proceed(k, <<>>, <<"G", "S">>, devs, op, r, cfg)
              [] op = "rcpt"  ->
@@ -373,7 +377,9 @@ Ret ==
                IF drv.i < Len(cfg.route) THEN drv' = more
                ELSE \/ drv' = stop
                     \/ ~cfg.fixed /\ drv.i < MaxRcpts /\ drv' = more     \* one more recipient
-          [] run.op = "body" -> drv' = [drv EXCEPT !.ph = "fin", !.fin = IF ok THEN "commit" ELSE "abort"]
+          \* the callers of the per-recipient path (LMTPData, the queue) commit whatever the statuses were
+          [] run.op = "body" -> drv' = [drv EXCEPT !.ph = "fin",
+                                                   !.fin = IF ok \/ cfg.path = "na" THEN "commit" ELSE "abort"]
           [] OTHER -> drv' = [drv EXCEPT !.ph = "end"]
   /\ UNCHANGED <<cfg, k, metaQ, used, tg, devs, delays, hist>>
 
